@@ -236,6 +236,12 @@ def coq_run_files(named_texts, timeout=900):
     for k, r in enumerate(results):
         if r is not None and r[0] in (-9, 137):
             results[k] = _coq_run_files([named_texts[k]], timeout)[0]
+    # shards that ran out of time while sharing the machine: once more, one after the other, with
+    # twice the budget each (a shard that is slow by itself still fails, and is reported)
+    late = [k for k, r in enumerate(results) if r is not None and r[0] == 124]
+    if late and len(late) < len(results):
+        for k in late:
+            results[k] = _coq_run_files([named_texts[k]], 2 * timeout)[0]
     return results
 
 
